@@ -24,6 +24,7 @@ META = dict(
 )
 META["text"] += ' Sample numbers are re-derived from the seed and the position alone, never from what earlier rounds did to the records (= C07.R5).'
 META["text"] += ' R4 also borrows C07.R6 (both samples sorted in place by the same selection-order key).'
+META["text"] += ' R1 also borrows C07.R2 and C07.R4: the selection reads styles and sample numbers only, not the `sampled` flags an earlier round wrote.'
 
 
 def _norm_empty(e):
@@ -108,10 +109,13 @@ def run(chk):
     def r23(c):
         c07.r2(c, f2)
         c07.r3(c, f2)
-    chk.borrow(r23, {"C07.R3": "C10.R1"})
+    chk.borrow(r23, {"C07.R3": "C10.R1", "C07.R2": "C10.R1"})
     # ... and the order being walked is the same in every round: sample numbers depend on the seed and the position only, never on
     # what earlier rounds did to the records (C07.R5)
     chk.borrow(c07.r5, {"C07.R5": "C10.R1"})
+    # ... nor does the selection read what earlier rounds wrote on the records (`sampled`): a redrawn round selects what a first
+    # round with the same sizes would (C07.R4)
+    chk.borrow(lambda c: c07.r4(c, f2), {"C07.R4": "C10.R1"})
     # R2 sticky confirmation
     chk.borrow(c09.r_set_p_values, {"C09.R3": "C10.R2"})
     chk.borrow(c09.r_reset, {"C09.R5": "C10.R2"})
